@@ -21,7 +21,7 @@ from .sample import Sampler, mutants, with_trivia
 from .tools import CACHE, WORK, repo_hash, seed as get_seed, log, pmap, fresh_dir, rmtree, build_bins, Inconclusive
 from . import buckets
 
-VERSION = 10   # bump to invalidate cached campaigns when the machinery changes
+VERSION = 11   # bump to invalidate cached campaigns when the machinery changes
 
 PURE = dict(p_user_pred=0.0, p_assert=0.0)
 SIZES = {
@@ -101,6 +101,16 @@ def population(shard, nshards, tier, sd):
             u = Unit(f"b{shard}_{bi}", g, {"profile": "bucket", "bucket": name, "features": [], "inputs": inputs})
             u.twin = True
             units.append(u)
+    # C11: rejected grammars (one injected semantic / syntax error each): nothing may be written
+    accepted_like = [u for u in units if u.meta.get("profile") not in ("bucket",)]
+    for j, (code, text) in enumerate(buckets.injected_errors(rng, [u.g for u in accepted_like[:6]])):
+        g0 = accepted_like[j % max(1, min(6, len(accepted_like)))].g if accepted_like else None
+        if g0 is None:
+            break
+        u = Unit(f"e{shard}_{j}", g0, {"profile": "rejected", "inject": code, "features": []})
+        u.text = text
+        u.twin = False
+        units.append(u)
     for u in units:
         # C08 differential: code variants of the emitted parser with the first k attempts of a choice site disabled
         u.want_variants = u.meta.get("profile") != "bucket" and has_kind(u.g, ("choice",))
@@ -339,7 +349,15 @@ def evaluate(units, jobs, meta, inputs_of, results, incidents, tier):
             V.v("C11", f"llw-crash:{grammar_shape(u)}", f"llw exited with {u.llw_exit} (panic/abort) on an input grammar", dict(wit, stderr=u.llw_stderr[-600:]))
         elif u.llw_exit == 0:
             V.counts["C11"]["accepted"] += 1
-            if u.generated is None:
+            if u.meta.get("inject"):
+                V.counts["C11"]["injection_still_accepted_" + u.meta["inject"]] += 1
+            if "parser.gv" in u.files:
+                V.counts["C11"]["graphs_written"] += 1
+            else:
+                V.v("C11", "accepted-no-graph", "llw -g exit 0 but no parser.gv", wit)
+            if u.meta.get("inject_accepted"):
+                pass
+            elif u.generated is None:
                 V.v("C11", "accepted-no-output", "llw exit 0 but no generated.rs", wit)
             elif u.compile_error:
                 first = u.compile_error[0]
@@ -349,6 +367,9 @@ def evaluate(units, jobs, meta, inputs_of, results, incidents, tier):
                 V.counts["C11"]["accepted_and_compiled"] += 1
         else:
             V.counts["C11"]["rejected"] += 1
+            if u.meta.get("inject"):
+                V.counts["C11"]["rejected_by_injected_" + u.meta["inject"]] += 1
+                V.nontrivial["C11"].add(u.gid)
             extra = [f for f in u.files if f != "g.llw"]
             if extra:
                 V.v("C11", "rejected-but-wrote", f"llw reported an error (exit 1) but wrote {extra}", wit)
@@ -646,6 +667,10 @@ def _worker(args):
     rng = random.Random(sd * 52361 + shard)
     units = population(shard, nshards, tier, sd)
     run_llw(units, Path(root) / f"w{shard}", jobs=2)
+    for u in units:
+        if u.meta.get("inject") and u.generated:
+            u.meta["inject_accepted"] = True       # the model behind it lacks the injected names: keep it out of the arena
+            u.generated = None
     arena = Arena(Path(root), str(shard))
     gen_units = [u for u in units if u.generated]
     twin_units = [u for u in gen_units if getattr(u, "twin", True)]
